@@ -30,7 +30,7 @@ Observed ==
        /\ Check("validator_saw_the_xform_file", called => Ev.sawfile)
        /\ Check("written_file_equals_library_result", out = "new" => Ev.out_equals_lib)
        /\ Check("diagnostics_cleaned", (exc = "ODKValidateError" /\ vout \in {"reject", "reject_rc2"}) => Ev.msg_clean)
-       /\ Check("diagnostics_carried", (exc = "ODKValidateError" /\ vout \in {"reject", "reject_rc2", "reject_arbitrary", "reject_bytes", "corrupt_jar"}) => Ev.msg_carries))
+       /\ Check("diagnostics_carried", (exc = "ODKValidateError" /\ vout \in {"reject", "reject_rc2", "reject_arbitrary", "reject_bytes", "corrupt_jar", "corrupt_jar_after_notice"}) => Ev.msg_carries))
   /\ l' = l + 1 /\ UNCHANGED <<tid, vars>>
 TNext == Run \/ Observed
 TSpec == TInit /\ [][TNext]_<<vars, tid, l>>
